@@ -160,3 +160,57 @@ Theorem C14_bytes_half_floats_roundtrip : forall t : Z, (Z.abs t < 2 ^ 53)%Z ->
   (bits_of_half t < 2 ^ 64)%N /\ fl_of_bits (bits_of_half t) = FHalf t.
 Proof. exact fl_of_bits_of_half. Qed.
 Print Assumptions C14_bytes_half_floats_roundtrip.
+
+(** * Deltas built with ignore_order=True: the index maps (Pickle/DeltaIOCodec.v, Delta/DeltaIO.v) *)
+From DD Require Import Delta.DeltaIO Pickle.DeltaIOCodec Pickle.DeltaIOCodecProofs.
+
+(* the payload with iterable_items_added_at_indexes / iterable_items_removed_at_indexes, written from a delta of the
+   ignore-order application model and read back, is that delta *)
+Theorem C14_ignore_order_payload_roundtrip : forall d : delta_io, delta_io_ok d ->
+  delta_io_of_pv (d_bidir (io_base d)) (pv_of_delta_io d) = Some d.
+Proof. exact delta_io_of_pv_of_delta_io. Qed.
+Print Assumptions C14_ignore_order_payload_roundtrip.
+
+(* the property for them: dumped (canonically / by any accepted encoding / as bytes followed by anything), loaded and
+   read back, the delta gives the same result of Delta.__add__ (DeltaIO.apply_io: _do_ignore_order included) on
+   EVERY base, for every hasher, conversion and ordering oracle *)
+Theorem C14_ignore_order_reloaded_same_result :
+  forall H conv rem_order add_order (w : world) (d : delta_io),
+  calls_ok w -> types_ok w (pv_of_delta_io d) -> wfp (pv_of_delta_io d) = true -> delta_io_ok d ->
+  exists d', reload_io w (d_bidir (io_base d)) (enc_prog (pv_of_delta_io d)) = Some d' /\
+    (forall base, apply_io H conv rem_order add_order d' base = apply_io H conv rem_order add_order d base).
+Proof. intros H conv ro ao. exact (reloaded_io_same_result H conv ro ao). Qed.
+Print Assumptions C14_ignore_order_reloaded_same_result.
+
+Theorem C14_ignore_order_reloaded_same_result_accepted :
+  forall H conv rem_order add_order (w : world) (prog : list op) (d : delta_io),
+  calls_ok w -> types_ok w (pv_of_delta_io d) -> wfp (pv_of_delta_io d) = true -> delta_io_ok d ->
+  accepts prog (pv_of_delta_io d) = true ->
+  exists d', reload_io w (d_bidir (io_base d)) prog = Some d' /\
+    (forall base, apply_io H conv rem_order add_order d' base = apply_io H conv rem_order add_order d base).
+Proof. intros H conv ro ao. exact (reloaded_io_same_result_accepted H conv ro ao). Qed.
+Print Assumptions C14_ignore_order_reloaded_same_result_accepted.
+
+Theorem C14_ignore_order_bytes_reloaded_same_result :
+  forall H conv rem_order add_order (w : world) (t : textw) (d : delta_io) junk,
+  calls_ok w -> types_ok w (pv_of_delta_io d) -> wfp (pv_of_delta_io d) = true -> delta_io_ok d ->
+  dump_ok (pv_of_delta_io d) = true ->
+  exists d', reload_io_bytes w (c_dialect t) (d_bidir (io_base d)) (dump_bytes (pv_of_delta_io d) ++ junk) = Some d' /\
+    (forall base, apply_io H conv rem_order add_order d' base = apply_io H conv rem_order add_order d base).
+Proof. intros H conv ro ao. exact (reloaded_io_bytes_same_result H conv ro ao). Qed.
+Print Assumptions C14_ignore_order_bytes_reloaded_same_result.
+
+(** * The JSON path: the exact effect of finding C14-JSON-NONETYPE (Pickle/JsonNoneProofs.v) *)
+From DD Require Import Pickle.JsonProofs Pickle.JsonNoneProofs.
+
+(* on the JSON-representable fragment extended with NoneType at old_type / new_type, the JSON-persisted delta
+   carries [jimg d]: d with exactly those NoneType entries replaced by the value None, nothing else changed *)
+Theorem C14_json_nonetype_exact : forall d : pv, json_okN d = true -> json_roundtrip d = Some (jimg d).
+Proof. exact json_roundtrip_nonetype. Qed.
+Print Assumptions C14_json_nonetype_exact.
+
+(* hence, there, the payload comes back equal IF AND ONLY IF no type change involves None *)
+Theorem C14_json_identity_iff_no_nonetype : forall d : pv, json_okN d = true ->
+  (json_roundtrip d = Some d <-> has_nonetype d = false).
+Proof. exact json_roundtrip_identity_iff. Qed.
+Print Assumptions C14_json_identity_iff_no_nonetype.
